@@ -41,6 +41,8 @@ def run_case(case):
                         p.__exit__(type(ex), ex, ex.__traceback__)
                 elif op[1] == "explicit":
                     p.deactivate()
+                elif op[1] == "derived":
+                    p["a"].deactivate()          # through a derived stage handle: must reach the root probe
                 else:
                     p.__exit__(None, None, None)
             elif op[0] == "call":
